@@ -56,7 +56,8 @@ class C17(Prop):
                 "family": rng.choice(["mixed", "mixed", "mixed", "at_limit"]), "chunk_law": rng.choice(["whole", "1..64", "1..7"]),
                 "kinds": rng.choice([["port"], ["cable"], ["instance"], ["port", "cable", "instance"],
                                      ["definition"], ["library"], ["port", "cable", "instance", "definition", "library"]]),
-                "policy_start": rng.choice(["DEFAULT", "DEFAULT", "EDIF"])}
+                "policy_start": rng.choice(["DEFAULT", "DEFAULT", "EDIF"]),
+                "second_write": rng.random() < 0.3}
 
     def make_gen(self, w, rng, cfg):
         r = rng
@@ -121,10 +122,51 @@ class C17(Prop):
         emit({"op": "compose", "on": net, "path": "sim://a.edf"})
         emit({"op": "parse", "path": "sim://a.edf"})
         self.net_h = net
-        return ScriptGen(ev)
+        if not cfg.get("second_write"):
+            return ScriptGen(ev)
+        # after the first export every element carries an identifier: rename one, add a sibling whose NAME is
+        # that element's identifier (or a case variant of it), and export again
+        state = {"phase": 0}
+        n_script = len(ev)
+
+        def more():
+            n = w.h(net)
+            if n is None:
+                return None
+            if state["phase"] == 0:
+                state["phase"] = 1
+                d = w.h(top)
+                kind = r.choice(["port", "cable", "instance"])
+                sibs = [x for x in {"port": d.ports, "cable": d.cables, "instance": d.children}[kind]
+                        if "EDIF.identifier" in x and w.handle_of(x)] if d is not None else []
+                sibs = [x for x in sibs if not (kind == "cable" and (x.is_array or len(x.wires) > 1))]
+                if not sibs:
+                    return more()
+                x = r.choice(sibs)
+                state["kind"], state["ident"] = kind, x["EDIF.identifier"]
+                return {"op": "set_name", "on": w.handle_of(x), "v": "was_%d" % r.randint(0, 10 ** 6)}
+            if state["phase"] == 1:
+                state["phase"] = 2
+                if "ident" not in state:
+                    return more()
+                nm = state["ident"] if r.random() < 0.6 else state["ident"].swapcase()
+                if state["kind"] == "port":
+                    return {"op": "create_port", "on": top, "name": nm, "pins": 1, "direction": "in"}
+                if state["kind"] == "cable":
+                    return {"op": "create_cable", "on": top, "name": nm, "wires": 1}
+                return {"op": "create_child", "on": top, "name": nm, "ref": leaf}
+            if state["phase"] == 2:
+                state["phase"] = 3
+                return {"op": "compose", "on": net, "path": "sim://b.edf"}
+            if state["phase"] == 3:
+                state["phase"] = 4
+                return {"op": "parse", "path": "sim://b.edf"}
+            return None
+        return ScriptGen(ev, more)
 
     def start(self, w, cfg):
         self.scopes = None
+        self.had_ident = set()
         self.skip_cables = False
         self.cable_info = {}
 
@@ -137,6 +179,13 @@ class C17(Prop):
                 yield "port", list(d.ports)
                 yield "cable", list(d.cables)
                 yield "instance", list(d.children)
+
+    def before(self, w, ev):
+        if ev["op"] == "compose":
+            n = w.h(ev["on"])
+            if n is not None:
+                self.had_ident = set(id(e) for kind, elems in self.scopes_of(n) for e in elems if "EDIF.identifier" in e)
+        return None
 
     def after(self, w, ev, outcome, pre):
         if ev["op"] == "compose":
@@ -163,7 +212,11 @@ class C17(Prop):
                         raise Violation("C17.ident.collision_ci", kind, "%r and %r both got %r / %r" % (
                             seen[low].name[:30], e.name[:30], seen[low]["EDIF.identifier"][:40], ident[:40]))
                     seen[low] = e
-                    if (ident != e.name) != bool(e.get("EDIF.rename", False)) and ident != e.name:
+                    if (ident != e.name) != bool(e.get("EDIF.rename", False)) and ident != e.name \
+                            and id(e) not in self.had_ident:
+                        # (an element that carried its identifier before this export - from an earlier export or
+                        # from the reader - and was renamed since is written as a rename by comparing name and
+                        # identifier; the flag in its data is not what the file depends on)
                         raise Violation("C17.ident.rename_flag", kind, "identifier differs from the name but no rename is recorded")
                     k = re.sub(r"[^0-9a-z]", "_", e.name.lower())
                     if k in sanit and sanit[k] != e.name:
